@@ -577,7 +577,9 @@ impl FilteredReadStream {
                 &mut scan_push_down_fragments_to_read,
             );
 
-            if to_take == 0 {
+            // The index result only decides which rows match when nothing is left to
+            // re-check: with a refine filter, rows taken here may still be filtered out.
+            if to_take == 0 && options.refine_filter.is_none() {
                 scan_planned_with_limit_pushed_down = true;
                 fragments_to_read = scan_push_down_fragments_to_read;
                 break;
